@@ -275,6 +275,31 @@ def run_check(prop, tier, seed):
             inconclusive.append(f"harness={name} reason={kind} count={n}")
         for lab in res.get("missing_reach") or []:
             inconclusive.append(f"harness={name} reason=vacuity witness-not-reached={lab}")
+    # translator validation: a few *passing* paths (one per harness, at most 4 per property) are run
+    # natively under the same inputs and decisions; the native run must pass too.  Only paths whose
+    # decisions can be forced natively and that use no intercepted function and one goroutine qualify.
+    validated, mismatches = 0, []
+    tv_budget = 4
+    for res in run["results"]:
+        d, name = res["harness"].split(":")
+        if tv_budget == 0:
+            break
+        for smp in ([res["native_sample"]] if res.get("native_sample") else []):
+            rp = os.path.join(outdir, f"{name}.sample.replay.json")
+            model = realise(smp.get("model") or {}, (smp.get("extra") or {}).get("hashes"))
+            json.dump({"property": prop, "dir": d, "entry": name, "kind": "sample", "model": model, "solver_model": smp.get("model") or {},
+                       "choices": smp.get("choices") or [], "decisions": smp.get("decisions", ""), "stack": smp.get("stack") or []}, open(rp, "w"), indent=1)
+            status, detail = native_replay(outdir, d, name, rp)
+            tv_budget -= 1
+            if status == "pass":
+                validated += 1
+            elif "engine only" in detail or "verifvp.Stub" in detail:
+                pass  # harness uses engine-only primitives: not comparable natively
+            else:
+                mismatches.append(f"harness={name} reason=translator-validation native-run-of-a-passing-path={status} {detail[:200]}")
+            break
+    replays += validated
+    inconclusive.extend(mismatches)
     for line in sorted(set(known_lines)):
         print(line)
     for line in inconclusive:
